@@ -1,6 +1,18 @@
 """Property -> rules table (DESIGN 3) with the evidence texts."""
 
 PROPS = {
+    'C14': {
+        'rules': ['R-attribution', 'R-drop-teardown', 'R-dial-order', 'R-send-connected'],
+        'explanation': 'x', 'level_text': 'x', 'level_note': 'x', 'technique': 'x',
+    },
+    'C17': {
+        'rules': ['R-id-order', 'R-name-format', 'R-setversion-guards', 'R-version-select', 'R-version-apply', 'R-apply-step', 'R-version-pairing', 'R-version-in-payload'],
+        'explanation': 'x', 'level_text': 'x', 'level_note': 'x', 'technique': 'x',
+    },
+    'C19': {
+        'rules': ['R-caller-footprint', 'R-queue-locked', 'R-result-publish', 'R-atomic-publish'],
+        'explanation': 'x', 'level_text': 'x', 'level_note': 'x', 'technique': 'x',
+    },
     'C15': {
         'rules': ['R-delegate-agree', 'R-counter-ops', 'R-queue-bound', 'R-consumer-state'],
         'explanation': 'x', 'level_text': 'x', 'level_note': 'x', 'technique': 'x',
